@@ -207,15 +207,16 @@ impl fmt::Display for Line {
 
 impl fmt::Display for Asm {
     fn fmt(&self, f: &mut fmt::Formatter) -> fmt::Result {
-        let header = "#! mrasm".pad_to_width(COMMENT_WIDTH);
+        // The header allows a single blank before its comment, and every line
+        // break starts a new line: separate lines instead of terminating them.
+        let header = "#! mrasm";
         if let Some(comment) = &self.comment_after_shebang {
-            let line = format!("{}; {}", header, comment);
-            writeln!(f, "{}", line)?;
+            write!(f, "{} ; {}", header, comment)?;
         } else {
-            writeln!(f, "{}", header)?;
+            write!(f, "{}", header)?;
         }
         for line in &self.lines {
-            writeln!(f, "{}", line)?;
+            write!(f, "\n{}", line)?;
         }
         Ok(())
     }
